@@ -32,7 +32,8 @@ ASSUMPTIONS = ['repeated solves append to an existing trace (reset=False); each 
 TECHNIQUE = 'differential testing of traced vs untraced twin scripted models over generated call histories; trace content reconstructed from the twin'
 LEVEL_TEXT = ('Generated call histories are applied to a traced model and an untraced twin; every observable is compared after '
               'every call and the trace content is checked against per-pass values recorded on the twin.')
-LEVEL_NOTE = 'Trusted: scripted model wrapper (records per-pass values). Not covered: reset=True, TRACE_VARIABLES class defaults.'
+LEVEL_NOTE = ('Trusted: scripted model wrapper (records per-pass values). reset=True is only compared differentially (the statement '
+              'describes the trace content for reset=False); TRACE_VARIABLES class defaults are generated.')
 
 VARS = ['A', 'B', 'X']
 
@@ -43,6 +44,8 @@ def make(case):
     attrs = {}
     if case.get('trace_name'):
         attrs['TRACE_NAME'] = case['trace_name']      # the model may need the name `trace` for a variable of its own
+    if case.get('trace_variables') is not None:
+        attrs['TRACE_VARIABLES'] = list(case['trace_variables'])     # class-level default for trace=True
     cls = type('Traced', (TracerMixin, base), attrs)
     n = case.get('n', 3)
     m = cls(range(n), A=np.array([1.0 + i for i in range(n)]), B=np.array([10.0 * (i + 1) for i in range(n)]),
@@ -83,6 +86,8 @@ def apply_pre(model, op):
 
 def names_for(trace, model):
     if trace is True:
+        if type(model).TRACE_VARIABLES is not None:
+            return list(type(model).TRACE_VARIABLES)
         return list(model.names)
     if isinstance(trace, str):
         return [trace]
@@ -96,6 +101,8 @@ def call(model, c, with_trace):
         if isinstance(tr, dict) and 'tuple' in tr:
             tr = tuple(tr['tuple'])
         kw['trace'] = tr
+        if c.get('reset'):
+            kw['reset'] = True         # only meaningful together with trace; the untraced twin never sees it
     entry = c.get('entry', 'solve_t')
     if entry == 'solve':
         return attempt(model.solve, **kw)
@@ -154,6 +161,9 @@ def check_case(case):
         if not tr:
             if any(a[1] != b[1] for a, b in zip(before_trace, after_trace)):
                 res.fail('trace-off/trace-written', f'{detail}: tracing was off but a Trace changed: {[a[1] for a in after_trace]}')
+            continue
+        if c.get('reset'):
+            res.tag('reset=True')      # the statement describes the trace content for the default reset=False only
             continue
         names = names_for(tr, T_)
         # periods visited by this call = solve_t invocations recorded on the untraced twin
@@ -247,10 +257,15 @@ def strategy():
                 c['t'] = n + c['t']
             if draw(st.integers(0, 3)) == 0:
                 c['pre'] = draw(pre)
+            if tr == 'on' and draw(st.integers(0, 7)) == 0:
+                c['reset'] = True
             calls.append(c)
         hooks = draw(st.sampled_from([None, None, None, {'before': 'KeyError'}, {'after': 'ValueError'}, {'after': 'ZeroDivisionError'}]))
-        return {'n': n, 'script': draw(passes), 'hooks': hooks, 'calls': calls,
+        case = {'n': n, 'script': draw(passes), 'hooks': hooks, 'calls': calls,
                 'trace_name': draw(st.sampled_from([None, None, 'history', 'tr_']))}
+        if trace is True and draw(st.booleans()):
+            case['trace_variables'] = draw(st.sampled_from([['B'], ['X', 'A'], ['A', 'B', 'X'], ['B', 'A']]))
+        return case
     return cases()
 
 
@@ -273,6 +288,9 @@ def gen_basic():
                                 yield {'n': 3, 'script': script, 'hooks': {'before': 'ValueError'}, 'calls': [c]}
                             yield {'n': 3, 'script': script, 'calls': [c, c]}
                             yield {'n': 3, 'script': script, 'calls': [c, dict(c, entry='solve_t'), c]}
+                            if trace is True:
+                                yield {'n': 3, 'script': script, 'calls': [c, c], 'trace_variables': ['B', 'A']}
+                                yield {'n': 3, 'script': script, 'calls': [c, dict(c, reset=True)], 'trace_variables': ['X']}
                             if max_iter == moves + 1 and failures == 'raise':
                                 for pre in (['copy', 'copy'], ['copy', 'copy.deepcopy'], ['assign', 'A', 'setattr', 1.0],
                                             ['assign', 'X', 'replace_values', -2.5], ['assign', 'B', 'setitem', 1.0]):
